@@ -87,31 +87,40 @@ type mismatch struct {
 func valueClass(exp, got *string) string {
 	switch {
 	case exp == nil && got != nil:
-		return "expected-NULL-got-" + short(*got)
+		return "expected-NULL-got-" + short(*got, true)
 	case exp != nil && got == nil:
-		return "expected-" + short(*exp) + "-got-NULL"
+		return "expected-" + short(*exp, false) + "-got-NULL"
 	case *got == g9blib.Lit(*exp):
 		return "got-sql-quoted-literal"
 	case *got == "("+*exp+")":
 		return "got-extra-parentheses"
+	case *got == *exp+" 00:00:00":
+		return "date-literal-printed-with-time"
+	case *exp == "time" && *got == "time(6)":
+		return "time-printed-as-time(6)"
+	case strings.Contains(*exp, " on update ") && *got == (*exp)[:strings.Index(*exp, " on update ")]:
+		return "on-update-clause-missing"
+	case strings.HasPrefix(*exp, "on update ") && *got == "":
+		return "on-update-clause-missing"
+	case len(*got) < len(*exp) && len(*exp)-len(*got) <= 3 && strings.HasSuffix(*exp, *got):
+		return "text-lost-its-first-characters"
 	}
-	return "expected-" + short(*exp) + "-got-" + short(*got)
+	return "expected-" + short(*exp, false) + "-got-" + short(*got, true)
 }
 
-// short keeps enumerable values verbatim and abstracts free text.
-func short(s string) string {
-	if len(s) <= 24 && strings.Trim(s, "ABCDEFGHIJKLMNOPQRSTUVWXYZ_ ()0123456789") == "" {
-		return strings.ReplaceAll(s, " ", "_")
-	}
-	if len(s) <= 16 && !strings.ContainsAny(s, " \t\n'\"`\\") {
-		allDigit := strings.Trim(s, "0123456789") == ""
-		if allDigit && len(s) > 0 {
-			return "number"
-		}
-		return "text"
-	}
+// short keeps enumerable values verbatim and abstracts free text and (unless keepNum) numbers.
+func short(s string, keepNum bool) string {
 	if s == "" {
 		return "empty"
+	}
+	if strings.Trim(s, "0123456789") == "" {
+		if keepNum && len(s) <= 3 {
+			return s
+		}
+		return "number"
+	}
+	if len(s) <= 24 && strings.Trim(s, "ABCDEFGHIJKLMNOPQRSTUVWXYZ_ ()0123456789") == "" {
+		return strings.ReplaceAll(s, " ", "_")
 	}
 	return "text"
 }
@@ -232,6 +241,58 @@ type hist struct {
 	log   []string
 	nameN int
 	gone  []string // "TABLE d.x" style objects that must no longer be showable
+	oldNames map[string]bool // former names of renamed tables
+}
+
+// classify refines a mismatch's class with what the model knows about the input (so that signatures
+// name the input class, not just the two values).
+func (h *hist) classify(ex *g9blib.Expect, m *mismatch) {
+	tableOf := func() (*g9blib.Table, string) {
+		var sn, tn, cn string
+		switch ex.Name {
+		case "COLUMNS":
+			if len(m.Key) == 3 {
+				sn, tn, cn = strings.Trim(m.Key[0], "'"), strings.Trim(m.Key[1], "'"), strings.Trim(m.Key[2], "'")
+			}
+		case "SHOW COLUMNS":
+			sn, tn = ex.Schema, ex.Table
+			if len(m.Key) == 1 {
+				cn = strings.Trim(m.Key[0], "'")
+			}
+		}
+		if s := h.cat.Schemas[sn]; s != nil {
+			return s.Tables[tn], cn
+		}
+		return nil, cn
+	}
+	switch {
+	case (m.Column == "COLUMN_KEY" || m.Column == "Key") && m.Kind == "wrong-value" && m.Got == "'MUL'":
+		if t, cn := tableOf(); t != nil {
+			nonLeading, others := false, 0
+			for _, ix := range t.Indexes {
+				for k, p := range ix.Cols {
+					if p.Col == cn {
+						if k > 0 {
+							nonLeading = true
+						}
+						if !(ix.Kind == "UNIQUE" && len(ix.Cols) == 1) {
+							others++
+						}
+					}
+				}
+			}
+			if nonLeading && m.Expected == "''" {
+				m.Class = "non-leading-index-column-flagged-MUL"
+			} else if others > 0 && m.Expected == "'UNI'" {
+				m.Class = "unique-column-flagged-MUL-when-in-another-index"
+			}
+		}
+	case ex.Name == "SHOW INDEXES" && m.Column == "Table" && h.oldNames[strings.Trim(m.Got, "'")]:
+		m.Class = "old-name-after-rename-table"
+	case ex.Name == "SHOW TRIGGERS" && (m.Kind == "extra-row" || m.Kind == "missing-row") && ex.Schema != "d":
+		// the session's current database is d: SHOW TRIGGERS FROM <other> listing d's triggers instead
+		m.Class = "from-clause-ignored"
+	}
 }
 
 func (h *hist) fresh(prefix string) string { h.nameN++; return fmt.Sprintf("%s%d", prefix, h.nameN) }
@@ -396,6 +457,7 @@ func (h *hist) nextStep() *step {
 				delete(s.Tables, tn)
 				t.Name = nn
 				s.Tables[nn] = t
+				h.oldNames[tn] = true
 				h.gone = []string{"TABLE " + qt}
 			}}
 		case 4, 5:
@@ -456,6 +518,15 @@ func (h *hist) nextStep() *step {
 			}
 			if old == nil {
 				continue
+			}
+			isPK := false
+			for _, p := range t.PKCols() {
+				if p == old.Name {
+					isPK = true
+				}
+			}
+			if isPK {
+				continue // RENAME COLUMN of a primary-key column corrupts the key (an ALTER defect, findings/C43.md), excluded
 			}
 			nn := h.fresh("rc")
 			oldName := old.Name
@@ -780,7 +851,7 @@ type histWitness struct {
 func runHistory(r *core.Run, rnd *rand.Rand, caseNo, steps int) {
 	e := g9blib.NewEngNamed("d")
 	defer e.Close()
-	h := &hist{r: r, rnd: rnd, cat: g9blib.NewCatalog(), e: e, s: e.NewSess()}
+	h := &hist{r: r, rnd: rnd, cat: g9blib.NewCatalog(), e: e, s: e.NewSess(), oldNames: map[string]bool{}}
 	d := h.cat.AddSchema("d")
 	exec := func(q string) *core.Result {
 		h.log = append(h.log, q)
@@ -836,8 +907,11 @@ func runHistory(r *core.Run, rnd *rand.Rand, caseNo, steps int) {
 				}
 				continue
 			}
-			bad = true
 			for _, m := range mm {
+				h.classify(ex, m)
+				if !r.IsKnown(m.sig()) {
+					bad = true // later steps would only repeat an unknown difference; known ones do not stop the history
+				}
 				r.Violation(m.sig(), &histWitness{Case: caseNo, History: append([]string{}, h.log...), Step: kind, Accepted: accepted, Mismatch: m})
 			}
 		}
